@@ -336,9 +336,10 @@ def compare_tables(got, want, fill, rooted):
 
 
 def ultrametric_lens(shape, variant):
-    """dyadic node heights: leaf 0, node = max(children) + step"""
+    """dyadic node heights: leaf 0, node = max(children) + step; variant 3: as variant 0 with every
+    two-leaf cherry at height 0 (two taxa at distance exactly 0.0)"""
     shape = tup(shape)
-    steps = [[0.5, 1.0, 0.25, 2.0, 0.75], [1.0, 1.0, 1.0, 1.0, 1.0], [0.25, 1.5, 0.5, 0.125, 3.0]][variant]
+    steps = [[0.5, 1.0, 0.25, 2.0, 0.75], [1.0, 1.0, 1.0, 1.0, 1.0], [0.25, 1.5, 0.5, 0.125, 3.0], [0.5, 1.0, 0.25, 2.0, 0.75]][variant]
     heights = []
     counter = [0]
 
@@ -350,6 +351,8 @@ def ultrametric_lens(shape, variant):
         hs = [rec(c) for c in s]
         counter[0] += 1
         h = max(hs) + steps[(counter[0] * 2 + len(s)) % 5]
+        if variant == 3 and s == ((), ()):
+            h = 0.0
         heights[idx] = h
         return h
 
@@ -652,7 +655,7 @@ def t2(ctx):
             rep.fail(mon, {"key": key, "kind": "recon", "item": item}, detail=detail)
 
     sc = "upgma@ultrametric"
-    ctx.scope(sc, rule="shapes with 2..%d leaves x 3 assignments of dyadic node heights x {identity, reversed labelling} x route in {matrix "
+    ctx.scope(sc, rule="shapes with 2..%d leaves x 3 assignments of dyadic node heights (+ one with every two-leaf cherry at height 0, from 3 leaves) x {identity, reversed labelling} x route in {matrix "
                        "of the tree, CSV round trip, edge-count matrix (shapes with all leaves at one depth)}; non-trivial = >= 4 leaves"
                        "; from 6 leaves identity labelling and no CSV route; 7 leaves: every third shape" % (6 if quick else 7), exhaustive=True)
     items = []
@@ -663,7 +666,9 @@ def t2(ctx):
             for leaves in (LABELS[:n], list(reversed(LABELS[:n]))):
                 if n >= 6 and leaves != LABELS[:n]:
                     continue
-                for variant in (0, 1, 2):
+                for variant in (0, 1, 2, 3):
+                    if variant == 3 and (n < 3 or "((), ())" not in repr(tup(shape))):
+                        continue
                     spec = {"shape": lst(shape), "leaves": list(leaves), "rooted": True, "lens": ultrametric_lens(shape, variant),
                             "ns": default_ns(n)}
                     for route in ("direct", "csv", "counts"):
